@@ -253,7 +253,20 @@ pub fn gen_pred(rng: &mut Rng, scope: &[ScopeCol], depth: u32, o: &ExprOpts) -> 
         let neg = rng.chance(1, 2);
         let lo = rng.range(-5, 8);
         let hi = lo + rng.range(-2, 8);
-        return E::Between(Box::new(gen_num(rng, scope, 1, o, false)), Box::new(E::Lit(V::Int(lo))), Box::new(E::Lit(V::Int(hi))), neg);
+        // bounds are mostly literals; sometimes a (nullable) column or a NULL literal, so that the
+        // three-valued cases "one comparison UNKNOWN, the other FALSE / TRUE" are reached
+        let mut bound = |rng: &mut Rng, lit: i64| -> E {
+            if rng.chance(1, 5) {
+                gen_num(rng, scope, 0, o, false)
+            } else if o.null_literals && rng.chance(1, 10) {
+                E::Lit(V::Null)
+            } else {
+                E::Lit(V::Int(lit))
+            }
+        };
+        let lo_e = bound(rng, lo);
+        let hi_e = bound(rng, hi);
+        return E::Between(Box::new(gen_num(rng, scope, 1, o, false)), Box::new(lo_e), Box::new(hi_e), neg);
     }
     if kind < 93 && o.like && has_text {
         let pats = ["a%", "%b", "%b%", "a_c", "_", "%", "ab%", "a%c", "", "__", "%a_"];
